@@ -34,6 +34,7 @@ struct Slot {
 
 struct Shm {
   volatile int stop;
+  uint64_t next;  // next run index to hand out (fetch-add by the workers)
   Slot w[kMaxWorkers];
 };
 
@@ -99,6 +100,7 @@ PoolResult RunPool(const PoolOptions &opt, const PoolCallbacks &cb) {
                                   MAP_SHARED | MAP_ANONYMOUS, -1, 0));
   if (g_shm == MAP_FAILED) abort();
   memset(g_shm, 0, sizeof(Shm));
+  g_shm->next = opt.begin;
   std::vector<Worker> ws(W);
 
   auto spawn = [&](int w) {
@@ -139,9 +141,13 @@ PoolResult RunPool(const PoolOptions &opt, const PoolCallbacks &cb) {
       }
       if (cb.init) cb.init(w);
       std::string out;
-      for (uint64_t idx = wk.next_start; idx < opt.end;
-           idx += static_cast<uint64_t>(W)) {
+      // Runs are handed out dynamically (good balance when a few runs are much
+      // longer than the rest); every run is a pure function of its index, so
+      // which worker executes it does not matter.
+      while (true) {
         if (g_shm->stop) break;
+        const uint64_t idx = __atomic_fetch_add(&g_shm->next, 1, __ATOMIC_RELAXED);
+        if (idx >= opt.end) break;
         g_shm->w[w].cur_idx = idx;
         g_shm->w[w].run_counter = g_shm->w[w].run_counter + 1;
         g_shm->w[w].tag = 0;
@@ -167,14 +173,7 @@ PoolResult RunPool(const PoolOptions &opt, const PoolCallbacks &cb) {
     wk.killed_wallclock = false;
   };
 
-  for (int w = 0; w < W; ++w) {
-    ws[w].next_start = opt.begin + static_cast<uint64_t>(w);
-    if (ws[w].next_start < opt.end) {
-      spawn(w);
-    } else {
-      ws[w].done = true;
-    }
-  }
+  for (int w = 0; w < W; ++w) spawn(w);
 
   auto drain_lines = [&](Worker &wk, bool final) {
     size_t pos;
@@ -244,13 +243,8 @@ PoolResult RunPool(const PoolOptions &opt, const PoolCallbacks &cb) {
             d.tag = g_shm->w[w].tag;
             d.log_path = wk.log_path;
             if (cb.on_death) cb.on_death(d);
-            if (d.in_run && !g_shm->stop) {
-              wk.next_start = d.idx + static_cast<uint64_t>(W);
-              if (wk.next_start < opt.end) {
-                spawn(w);
-              } else {
-                wk.done = true;
-              }
+            if (d.in_run && !g_shm->stop && g_shm->next < opt.end) {
+              spawn(w);
             } else {
               wk.done = true;
             }
